@@ -43,16 +43,47 @@ func verifC15() {
 	}
 	files := map[string]string{}
 	files["log/log.go"] = "package log\n\nimport \"fmt\"\n\nfunc Note(s string) int {\n\tfmt.Println(s)\n\treturn 0\n}\n"
+	// import spelling: separate lines, one parenthesised group, a group of blank imports (side effects only), aliases
+	istyle := verifChoice("import_style", 4)
 	pkgSrc := func(name string, imports []string) (decls, inits string) {
 		var sb strings.Builder
-		sb.WriteString("package " + name + "\n\nimport \"log\"\n")
-		for _, im := range imports {
-			sb.WriteString("import \"" + im + "\"\n")
+		sb.WriteString("package " + name + "\n\n")
+		switch istyle {
+		case 0:
+			sb.WriteString("import \"log\"\n")
+			for _, im := range imports {
+				sb.WriteString("import \"" + im + "\"\n")
+			}
+		case 1:
+			sb.WriteString("import (\n\t\"log\"\n")
+			for _, im := range imports {
+				sb.WriteString("\t\"" + im + "\"\n")
+			}
+			sb.WriteString(")\n")
+		case 2:
+			sb.WriteString("import (\n\t\"log\"\n")
+			for _, im := range imports {
+				sb.WriteString("\t_ \"" + im + "\"\n")
+			}
+			sb.WriteString(")\n")
+		default: // aliases are accepted inside a group only
+			sb.WriteString("import (\n\t\"log\"\n")
+			for _, im := range imports {
+				short := im[strings.LastIndex(im, "/")+1:]
+				sb.WriteString("\tal_" + short + " \"" + im + "\"\n")
+			}
+			sb.WriteString(")\n")
 		}
 		sb.WriteString("\nvar V = log.Note(\"top " + name + "\")\n")
 		for _, im := range imports {
 			short := im[strings.LastIndex(im, "/")+1:]
-			sb.WriteString("var use_" + short + " = " + short + ".V\n")
+			switch istyle {
+			case 2:
+			case 3:
+				sb.WriteString("var use_" + short + " = al_" + short + ".V\n")
+			default:
+				sb.WriteString("var use_" + short + " = " + short + ".V\n")
+			}
 		}
 		return sb.String(), "package " + name + "\n\nimport \"log\"\n\nfunc init() {\n\tlog.Note(\"init " + name + "\")\n}\n"
 	}
